@@ -45,7 +45,7 @@ checkpoint's id (exactly what `dkv.Open` will look up); and `job.savepoint` is t
 theorem artifact_complete (fs fs' : FS) (jobURI : URI) (snap : JobSnap)
     (h : createArtifact .byId fs jobURI snap = (fs', true)) :
     (∀ o ∈ snap.ops, ∃ files, neededBy fs o = some files ∧
-        ∀ u ∈ files, ∃ c, read fs (.work u) = some c ∧ read fs' (.spFile snap.id u) = some c) ∧
+        ∀ u ∈ files, ∃ c, read fs (.work u) = some c ∧ read fs' (artPath snap.id u) = some c) ∧
     (∃ c, read fs (.work jobURI) = some c ∧ read fs' (.spJob snap.id) = some c) := by
   unfold createArtifact at h
   cases hc : createOps .byId snap.id fs snap.ops with
@@ -68,7 +68,7 @@ theorem artifact_complete (fs fs' : FS) (jobURI : URI) (snap : JobSnap)
         constructor
         · intro o ho
           obtain ⟨files, hf, hs⟩ :=
-            copyOps_sync .byId .work (.spFile snap.id) (fun u v => sp_ne_work _ u v) (spFile_inj _) snap.ops fs fsA hc o ho
+            copyOps_sync .byId .work (artPath snap.id) (fun u v => sp_ne_work _ u v) (spFile_inj _) snap.ops fs fsA hc o ho
           refine ⟨files, hf, ?_⟩
           intro u hu
           obtain ⟨cu, h1, h2⟩ := hs u hu
@@ -96,16 +96,16 @@ theorem savepoint_roundtrip (fs fs1 w : FS) (jobURI : URI) (snap : JobSnap)
   have hjw : read w (.spJob snap.id) = some (.job snap) := by rw [hw _ rfl]; exact hcj2
   -- what the artifact holds, seen from `w`
   have hsp : ∀ o ∈ snap.ops, ∃ files, neededBy fs o = some files ∧
-      ∀ u ∈ files, ∃ c, read fs (.work u) = some c ∧ read w (.spFile snap.id u) = some c := by
+      ∀ u ∈ files, ∃ c, read fs (.work u) = some c ∧ read w (artPath snap.id u) = some c := by
     intro o ho
     obtain ⟨files, hf, hall⟩ := hops o ho
     refine ⟨files, hf, fun u hu => ?_⟩
     obtain ⟨c, h1, h2⟩ := hall u hu
     exact ⟨c, h1, by rw [hw _ rfl]; exact h2⟩
   -- the listings computed from the artifact's documents are the original ones
-  have hlist : ∀ o ∈ snap.ops, ∃ files, opFiles .byId w (.spFile snap.id o.uri) o = some files ∧
+  have hlist : ∀ o ∈ snap.ops, ∃ files, opFiles .byId w (artPath snap.id o.uri) o = some files ∧
       neededBy fs o = some files ∧
-      ∀ u ∈ files, ∃ c, read fs (.work u) = some c ∧ read w (.spFile snap.id u) = some c := by
+      ∀ u ∈ files, ∃ c, read fs (.work u) = some c ∧ read w (artPath snap.id u) = some c := by
     intro o ho
     obtain ⟨files, hf, hall⟩ := hsp o ho
     refine ⟨files, ?_, hf, hall⟩
@@ -126,14 +126,14 @@ theorem savepoint_roundtrip (fs fs1 w : FS) (jobURI : URI) (snap : JobSnap)
     · intro o ho
       obtain ⟨files, h1, h2, h3⟩ := hlist o ho
       obtain ⟨files', h1', hsync⟩ :=
-        copyOps_sync .byId (.spFile snap.id) .work (fun u v => work_ne_sp _ u v) work_inj snap.ops w w' hr o ho
+        copyOps_sync .byId (artPath snap.id) .work (fun u v => work_ne_sp _ u v) work_inj snap.ops w w' hr o ho
       rw [h1] at h1'; injection h1' with h1'; subst h1'
       -- every listed file is back at its URI with its original content
       have hback : ∀ u ∈ files, read w' (.work u) = read fs (.work u) := by
         intro u hu
         obtain ⟨c, hs1, hs2⟩ := hsync u hu
         obtain ⟨c0, hf1, hf2⟩ := h3 u hu
-        have hfr := restoreOps_frame .byId snap.id (.spFile snap.id u) rfl snap.ops w
+        have hfr := restoreOps_frame .byId snap.id (artPath snap.id u) rfl snap.ops w
         rw [hr] at hfr; simp only at hfr
         rw [hfr, hf2] at hs1
         rw [hs2, hf1, ← hs1]
@@ -191,24 +191,47 @@ theorem publish_savepoint_roundtrip (fs fs1 : FS) (jobURI : URI) (snap : JobSnap
   simp only [publish, if_true] at hp
   exact savepoint_roundtrip_wipe _ fs1 jobURI snap hp (read_write_eq _ _ _)
 
-/-! ## non-vacuity: two operators, one shared table, a document that already holds a later checkpoint -/
+/-- **artPath_injective**: the place of a file inside a savepoint directory is computed from the file's own
+directory AND base name, so two different files of the same savepoint never share a place — in particular not two
+tables with the same number in two instance directories (an operator redeployed in a new directory keeps
+referencing the previous instance's tables while its own numbering restarts). This is the fact `artifact_complete`
+and `savepoint_roundtrip` rest on (`spFile_inj`); it is a property of the modelled path computation, not an
+assumption. -/
+theorem artPath_injective (id : Nat) (u v : URI) (h : artPath id u = artPath id v) : u = v :=
+  spFile_inj id u v h
+
+/-- artifact places never collide with working files or with another savepoint's places -/
+theorem artPath_separate (id id' : Nat) (u v : URI) :
+    artPath id u ≠ .work v ∧ artPath id u ≠ .spJob id' ∧ (artPath id u = artPath id' v → id = id') := by
+  refine ⟨?_, ?_, ?_⟩
+  · intro h; cases h
+  · intro h; cases h
+  · intro h; simp only [artPath, Path.sp.injEq] at h; exact h.1
+
+/-! ## non-vacuity: two operators, one shared table, a document that already holds a later checkpoint; operator
+`op0` was redeployed in directory `op0b/` and still references table `0.sst` of its previous directory `op0/`
+next to its own `0.sst` -/
 
 def demoFS : FS :=
-  [ (.work "op0/checkpoints", .doc [⟨1, ["op0/0.wal"], [["op0/0.sst"], []]⟩, ⟨2, ["op0/1.wal"], [["op0/1.sst"], ["op0/0.sst"]]⟩]),
-    (.work "op0/0.wal", .blob "w0"), (.work "op0/1.wal", .blob "w1"),
-    (.work "op0/0.sst", .blob "t0"), (.work "op0/1.sst", .blob "t1"),
-    (.work "op1/checkpoints", .doc [⟨1, ["op1/0.wal"], [["op0/0.sst"]]⟩]),
-    (.work "op1/0.wal", .blob "v0"),
-    (.work "job-1", .job ⟨1, [⟨"op0", 1, "op0/checkpoints"⟩, ⟨"op1", 1, "op1/checkpoints"⟩], "src@7"⟩) ]
+  [ (.work ⟨"op0b/", "checkpoints"⟩, .doc [⟨1, [⟨"op0b/", "1.wal"⟩], [[⟨"op0b/", "0.sst"⟩, ⟨"op0/", "0.sst"⟩], []]⟩,
+      ⟨2, [⟨"op0b/", "2.wal"⟩], [[⟨"op0b/", "1.sst"⟩], [⟨"op0/", "0.sst"⟩]]⟩]),
+    (.work ⟨"op0b/", "1.wal"⟩, .blob "w1"), (.work ⟨"op0b/", "2.wal"⟩, .blob "w2"),
+    (.work ⟨"op0/", "0.sst"⟩, .blob "old-t0"), (.work ⟨"op0b/", "0.sst"⟩, .blob "new-t0"), (.work ⟨"op0b/", "1.sst"⟩, .blob "t1"),
+    (.work ⟨"op1/", "checkpoints"⟩, .doc [⟨1, [⟨"op1/", "0.wal"⟩], [[⟨"op0/", "0.sst"⟩]]⟩]),
+    (.work ⟨"op1/", "0.wal"⟩, .blob "v0"),
+    (.work ⟨"", "job-1"⟩, .job ⟨1, [⟨"op0", 1, ⟨"op0b/", "checkpoints"⟩⟩, ⟨"op1", 1, ⟨"op1/", "checkpoints"⟩⟩], "src@7"⟩) ]
 
-def demoSnap : JobSnap := ⟨1, [⟨"op0", 1, "op0/checkpoints"⟩, ⟨"op1", 1, "op1/checkpoints"⟩], "src@7"⟩
+def demoOp0 : OpCkpt := ⟨"op0", 1, ⟨"op0b/", "checkpoints"⟩⟩
+def demoSnap : JobSnap := ⟨1, [demoOp0, ⟨"op1", 1, ⟨"op1/", "checkpoints"⟩⟩], "src@7"⟩
+def demoJob : URI := ⟨"", "job-1"⟩
 
-example : (createArtifact .byId demoFS "job-1" demoSnap).2 = true := by decide
-example : (loadFromSavepoint .byId (wipe (createArtifact .byId demoFS "job-1" demoSnap).1) 1).2 = some demoSnap := by
+example : (createArtifact .byId demoFS demoJob demoSnap).2 = true := by decide
+example : (loadFromSavepoint .byId (wipe (createArtifact .byId demoFS demoJob demoSnap).1) 1).2 = some demoSnap := by
   decide
 example :
-    openDB (loadFromSavepoint .byId (wipe (createArtifact .byId demoFS "job-1" demoSnap).1) 1).1 ⟨"op0", 1, "op0/checkpoints"⟩
-      = some ⟨⟨1, ["op0/0.wal"], [["op0/0.sst"], []]⟩, [.blob "w0"], [[.blob "t0"], []]⟩ := by decide
+    openDB (loadFromSavepoint .byId (wipe (createArtifact .byId demoFS demoJob demoSnap).1) 1).1 demoOp0
+      = some ⟨⟨1, [⟨"op0b/", "1.wal"⟩], [[⟨"op0b/", "0.sst"⟩, ⟨"op0/", "0.sst"⟩], []]⟩, [.blob "w1"],
+          [[.blob "new-t0", .blob "old-t0"], []]⟩ := by decide
 example : (createSavepoint { pending := some ⟨4, false, 2, [], none⟩, ckptId := 4 } 2).2 = .sp 4 false := by decide
 example : (createSavepoint { pending := none, ckptId := 4 } 2).2 = .sp 5 true := by decide
 
@@ -217,10 +240,28 @@ example : (createSavepoint { pending := none, ckptId := 4 } 2).2 = .sp 5 true :=
 With `Lister.last` (the code before the repair) the creation above also reports success, but it copied the files
 of checkpoint 2; restoring restores those, and opening the savepoint's checkpoint 1 finds its WAL missing. -/
 theorem d26_last_entry_artifact_incomplete :
-    (createArtifact .last demoFS "job-1" demoSnap).2 = true ∧
-    (loadFromSavepoint .last (wipe (createArtifact .last demoFS "job-1" demoSnap).1) 1).2 = some demoSnap ∧
-    openDB (loadFromSavepoint .last (wipe (createArtifact .last demoFS "job-1" demoSnap).1) 1).1 ⟨"op0", 1, "op0/checkpoints"⟩
-      = none ∧
-    (openDB demoFS ⟨"op0", 1, "op0/checkpoints"⟩).isSome = true := by decide
+    (createArtifact .last demoFS demoJob demoSnap).2 = true ∧
+    (loadFromSavepoint .last (wipe (createArtifact .last demoFS demoJob demoSnap).1) 1).2 = some demoSnap ∧
+    openDB (loadFromSavepoint .last (wipe (createArtifact .last demoFS demoJob demoSnap).1) 1).1 demoOp0 = none ∧
+    (openDB demoFS demoOp0).isSome = true := by decide
+
+/-! ## why the place must keep the file's own directory
+
+A layout that puts every file of an operator checkpoint under the directory of the operator's document, by base
+name only (`artPathFlat`), is not injective, and the copy loops of creation and restore run over it report success
+while the restored storage holds the wrong table: both `0.sst` get the content of the one copied last. -/
+theorem flat_layout_not_injective :
+    artPathFlat 1 "op0b/" ⟨"op0b/", "0.sst"⟩ = artPathFlat 1 "op0b/" ⟨"op0/", "0.sst"⟩ ∧
+    (⟨"op0b/", "0.sst"⟩ : URI) ≠ ⟨"op0/", "0.sst"⟩ := by decide
+
+def demoOp0Files : List URI :=
+  [⟨"op0b/", "1.wal"⟩, ⟨"op0b/", "0.sst"⟩, ⟨"op0/", "0.sst"⟩, ⟨"op0b/", "checkpoints"⟩]
+
+theorem flat_layout_restores_wrong_table :
+    let created := copyAll .work (artPathFlat 1 "op0b/") demoFS demoOp0Files
+    let restored := copyAll (artPathFlat 1 "op0b/") .work (wipe created.1) demoOp0Files
+    created.2 = true ∧ restored.2 = true ∧
+    (openDB restored.1 demoOp0).map (·.levels) = some [[.blob "old-t0", .blob "old-t0"], []] ∧
+    (openDB demoFS demoOp0).map (·.levels) = some [[.blob "new-t0", .blob "old-t0"], []] := by decide
 
 end Rxn.C14
